@@ -33,6 +33,8 @@ func c04(c *Ctx) {
 	// taken back (to exactly 0, not by a tally that may exceed it) before a successful return (S1-reset of C01) — a negative
 	// StuffingLength wraps in the uint8 length and the packet comes out longer than 188 bytes
 	c01StuffingReset(c)
+	// every buffer the muxer assembles output in starts empty in each method that fills it (B1)
+	muxerBuffersStartEmpty(c)
 	// a value the adaptation-field writer refuses is refused before anything of the packet reached the writer
 	ck.NoEmitBeforeLocalError(r, "writePacketAdaptationField")
 	// "consistent under an independent decoder": what writePacket emits is read back field for field by parsePacket (header
